@@ -325,3 +325,25 @@ Definition ok_sx_gen (unch : bool) (c o : sx) : bool :=
 Definition ok_sx (c o : sx) : bool := ok_sx_gen false c o.
 (** C10, query part: case = (1 backward-case) *)
 Definition ok_sx_c10 (c o : sx) : bool := ok_sx_gen true c o.
+
+(** ---------- are the hypotheses of the bounded-completeness theorem (Properties/C09.v) met by a case?  Boolean versions, used only
+    to COUNT in the evidence how many monitored cases the theorem speaks about (code -2 = monitored, outside the hypotheses) ---------- *)
+Fixpoint gdepth_b (g : bgroup) : nat := match g with BSingle _ => O | BAnd a b | BOr a b => S (Nat.max (gdepth_b a) (gdepth_b b)) end.
+Definition scalar_b (v : value) : bool := match v with VObj _ => false | _ => true end.
+Definition is_int_b (v : value) : bool := match v with VInt _ => true | _ => false end.
+Definition lit_ok_b (D : atoms) (c : bcond) : bool :=
+  let vals := map snd (filter (fun kv => str_eqb (fst kv) (b_field c)) D) in
+  match b_val c with
+  | VInt z => is_whole_small (f_of_Z z) && (f_to_i64 (f_of_Z z) =? z) && forallb is_int_b vals
+  | VNum _ => forallb (fun v => negb (is_int_b v)) vals
+  | _ => true end.
+Fixpoint glit_ok_b (D : atoms) (g : bgroup) : bool :=
+  match g with BSingle c => lit_ok_b D c | BAnd a b | BOr a b => glit_ok_b D a && glit_ok_b D b end.
+Definition single_valued_b (D : atoms) : bool :=
+  forallb (fun kv => forallb (fun kv' => negb (str_eqb (fst kv) (fst kv')) || sx_eqb (enc_val (snd kv)) (enc_val (snd kv'))) D) D.
+Definition thm_hyps_b (rules : list brule) (f0 : facts) : bool :=
+  let D := f0 ++ flat_map br_sets rules in
+  forallb (fun kv => scalar_b (snd kv)) D && single_valued_b D
+  && forallb (fun r => positive (br_cond r) && conjunctive [r] && glit_ok_b D (br_cond r) && Nat.leb (gdepth_b (br_cond r)) 62) rules.
+Definition hyps_sx (c : sx) : bool :=
+  match dec_bcase c with Some (_, _, _, rs, f, _) => thm_hyps_b rs f | None => false end.
